@@ -24,7 +24,7 @@ ASSUMPTIONS = [
     "tolerances: probabilities 2e-6 + p*(2e-5 + 8*eps32*max|logit|), log-probs 1e-5 + 1e-5*|lp| + 8*eps32*max|logit|; "
     "policy legs add 1e-4*(1+max|logit|) for the float32 forward pass; masked probabilities and log-probs exact (0, -inf)",
     "mode ties: any allowed action whose reference log-prob is within the log-prob tolerance of the maximum is accepted",
-    "statistical monitors (sample frequencies, epsilon bound, KS) use exact binomial / KS tails at 1e-9 per cell",
+    "statistical monitors (sample frequencies, epsilon bound, KS) use exact binomial / KS tails at 1e-10 per cell",
     "masks with no allowed action, parameters that give every allowed action probability 0, NaN / +inf parameters "
     "are excluded as ambiguous; for MultiBinary the all-zero action is always allowed, a masked bit is never set",
     "squashed-Gaussian policies: the 'mode (greedy) action' is the image of the Gaussian mean under the squashing "
@@ -33,7 +33,7 @@ ASSUMPTIONS = [
 ]
 
 EPS32 = float(np.finfo(np.float32).eps)
-ALPHA = 1e-9
+ALPHA = 1e-10
 
 
 def units(tier):
@@ -230,13 +230,13 @@ def judge(ctx, pre, ref, out, tol, desc, cls, wit, nontrivial=None):
             bad("sample-out-of-range", got=s[idx < 0][:4], n_bad=int((idx < 0).sum()))
         elif np.any(~ref.allowed[idx]):
             nb = ~ref.allowed[idx]
-            bad("sample-masked", got=s[nb][:4], n_masked=int(nb.sum()), n=N)
+            bad("sample-masked", got=s[nb][:4], n_masked=int(nb.sum()), n_samples=N)
         else:
             cnt = np.bincount(idx, minlength=len(ref.p))
             off = freq_off(cnt, N, ref.p)
             ctx.monitor("sample_frequency_cells_checked", len(cnt))
             if np.any(off):
-                bad("sample-frequency-off", counts=cnt, n=N, want_p=ref.p)
+                bad("sample-frequency-off", counts=cnt, n_samples=N, want_p=ref.p)
     if "slp_s" in out:
         s, lp = np.asarray(out["slp_s"]), f64(out["slp_lp"]).ravel()
         idx = ref.index(s)
@@ -245,7 +245,7 @@ def judge(ctx, pre, ref, out, tol, desc, cls, wit, nontrivial=None):
             bad("sample-out-of-range", got=s[idx < 0][:4], via="sample_and_log_prob")
         elif np.any(~ref.allowed[idx]):
             nb = ~ref.allowed[idx]
-            bad("sample-masked", got=s[nb][:4], n_masked=int(nb.sum()), n=len(lp), via="sample_and_log_prob")
+            bad("sample-masked", got=s[nb][:4], n_masked=int(nb.sum()), n_samples=len(lp), via="sample_and_log_prob")
         elif np.any(_far(lp, ref.logp[idx], tol.lp_abs, tol.lp_rel)):
             j = int(np.argmax(_far(lp, ref.logp[idx], tol.lp_abs, tol.lp_rel)))
             bad("sampled-logprob-mismatch", action=s[j], got=lp[j], want=ref.logp[idx][j])
@@ -859,7 +859,7 @@ def judge_q(ctx, pre, q, mask, eps, out, desc, cls, wit, fwd):
         ctx.violation(f"{pre}-sample-out-of-range", {**desc, **wit, "got": s[(s < 0) | (s >= n)][:4]})
         return
     if np.any(~m[s]):
-        ctx.violation(f"{pre}-sample-masked", {**desc, **wit, "epsilon": eps, "n_masked": int((~m[s]).sum()), "n": N,
+        ctx.violation(f"{pre}-sample-masked", {**desc, **wit, "epsilon": eps, "n_masked": int((~m[s]).sum()), "n_samples": N,
                                                "got": s[~m[s]][:4]})
         return
     if not unique:
@@ -872,11 +872,11 @@ def judge_q(ctx, pre, q, mask, eps, out, desc, cls, wit, fwd):
     if eps <= 0.0:
         ctx.monitor("q_epsilon0_draws", N)
         if k:
-            ctx.violation(f"{pre}-epsilon0-not-greedy", {**desc, **wit, "nongreedy": k, "n": N, "greedy": greedy})
+            ctx.violation(f"{pre}-epsilon0-not-greedy", {**desc, **wit, "nongreedy": k, "n_samples": N, "greedy": greedy})
     elif eps < 1.0:
         tail = float(binom.sf(k - 1, N, eps))
         if tail < ALPHA:
-            ctx.violation(f"{pre}-nongreedy-exceeds-epsilon", {**desc, **wit, "epsilon": eps, "nongreedy": k, "n": N,
+            ctx.violation(f"{pre}-nongreedy-exceeds-epsilon", {**desc, **wit, "epsilon": eps, "nongreedy": k, "n_samples": N,
                                                                 "tail_p": tail, "greedy": greedy})
     if k and ref.restricts:
         ctx.monitor("q_nongreedy_draws_under_restricting_mask", k)
@@ -905,7 +905,7 @@ def q_leg(ctx, pre, make_policy, ref_q, ns):
         env, _ = small_env(ctx.rng, "discrete", (n,))
         for ei, eps in enumerate(EPSILONS):
             for variant in range(ctx.n(1, 3)):
-                pol, fwd = make_policy(env, eps, ctx.key(7000 + 100 * si + 10 * ei + variant), variant + ei)
+                pol, fwd = make_policy(env, eps, ctx.key(7000 + 100 * si + 10 * ei + variant), variant + si)
 
                 def f(pol, obs, mask, key):
                     a0 = pol(None, obs, action_mask=mask)[1]
@@ -1080,7 +1080,7 @@ def u_continuous(ctx):
                         sd = np.exp(-5 + 0.5 * 7 * (ls + 1))
                         width = high - low
                         greedy = low + width / (1 + np.exp(-mu))
-                        gtol = 1e-5 * width + 1e-4 * width * 0.25 * (1 + np.abs(mu)) * 1e-1
+                        gtol = 2e-5 * width * (1 + np.abs(mu))
                     else:
                         mu = np_ac_params(pol, o, "relu").reshape(-1)
                         sd = np.exp(f64(pol.action_head.action_dist.log_std)).reshape(-1) * np.ones(d)
